@@ -48,15 +48,18 @@ claim(
     "closed witness that the signature is real; stored content is format independent (C09 `decode_encode`); every candidate iteration "
     "graph denotes the assignment (`toIterationGraphs_denote_source`). The lowering pass is ported (exact IR correspondence each run) "
     "and proved correct on the machine piecewise: the terminal block for both output kinds (`toIr_sound`, `terminal_append_sound`, "
-    "`terminal_bucket_sound`, exact over Rat), and END TO END for three problem classes: dense element-wise vector kernels "
+    "`terminal_bucket_sound`, exact over Rat), and END TO END for nine problem classes: dense element-wise vector kernels "
     "(`evaluate_correct_dense1`: from the source assignment through desugar, best_algorithm and generate_ir to the final machine state, "
-    "output cells = `denote a` for all sizes and inputs), sparse vector copy/scale (`sparse1_kernel_correct`, any initial capacity) and "
-    "dense contractions a(i) = sum_j e (`dense2_kernel_correct`, `dense2_matvec_kernel_denote`); each run counts the enumerated problems that "
+    "output cells = `denote a` for all sizes and inputs), dense element-wise kernels of every order (`denseN_kernel_correct`), every "
+    "all-dense single-term contraction with arbitrary loop nests incl. the matrix product (`denseTerm_kernel_correct`, `matmul_kernel_denote`), "
+    "dense contractions a(i) = sum_j e (`evaluate_correct_dense2`), sparse vector copy/scale (`evaluate_correct_sparse1`, any initial "
+    "capacity), CSR matrix-vector product (`spmv_kernel_denote`), product and sum of two sparse vectors with the full co-iteration "
+    "lattice (`spmul_kernel_correct`, `spadd_kernel_correct`); each run counts the enumerated problems that "
     "are instances of these classes. For all other problems the IR the compiler actually emits is executed on the Lean IR machine and on the real LLVM back end "
     "for enumerated problems x formats x inputs and compared with the specification, decoding raw arrays.",
-    "Lean 4 theorems on hand-written models of spec+desugar; emitted kernels executed on the Lean IR machine and LLVM vs the spec",
+    "Lean 4 theorems on hand-written models (spec, desugar, iteration graphs, lowering pass; end-to-end kernel theorems for nine problem classes) tied by exact IR correspondence; emitted kernels executed on the Lean IR machine and LLVM vs the spec",
     "DESIGN.md section 6 C01",
-    "Partial: 'for all inputs of every emitted kernel' is small-scope execution, not a theorem. Values are small integers in binary64.",
+    "Partial: outside the nine proved classes 'for all inputs of every emitted kernel' is small-scope execution, not a theorem. Values are small integers in binary64 there.",
 )
 claim(
     "C07",
